@@ -18,6 +18,21 @@
 (* behalf a contract was called / contract A for a direct user call).       *)
 (* Share allowances are set by Approve (the owner's own approveShares), the *)
 (* governance switch by SetSwitch (MsgUpdateSwitchParams).                  *)
+(*                                                                         *)
+(* Two further dimensions:                                                  *)
+(*  - the FATE of the frames between the transaction and the precompile     *)
+(*    after the precompile has returned: all complete ("commit"), the       *)
+(*    direct caller's frame REVERTs and the failure reaches the top         *)
+(*    ("revert"), the direct caller's frame REVERTs and the contract that   *)
+(*    called it catches the failure and completes ("caught"), the direct    *)
+(*    caller completes and the contract that called it REVERTs ("outer").   *)
+(*    A call made in a frame that does not survive is no call at all: in    *)
+(*    particular an approveShares of a reverted frame grants nothing.       *)
+(*  - the exchange rate of validator 0: Slash halves the validator's        *)
+(*    tokens (evidence at the beginning of a block), after `slashed`        *)
+(*    halvings one token buys 2^slashed shares.  delegateV2 / undelegateV2  *)
+(*    / redelegateV2 take TOKEN amounts, transferShares / approveShares /   *)
+(*    transferFromShares and the allowances are in SHARES.                  *)
 (***************************************************************************)
 EXTENDS Integers, Sequences, FiniteSets, TLC, Json
 
@@ -26,12 +41,15 @@ CONSTANTS Method,       \* methods exercised (subset of AllMethod)
                         \* "crosschain" (the whole precompile address) or a method name (address/method id);
                         \* <<>> = nothing disabled.  The order is the order of SwitchParams.DisablePrecompiles.
           ApproveAmt,   \* amounts an owner may approve (moved amount S = 2: 1 less, 2 equal, 3 more)
-          MaxCall, MaxApprove
+          MaxCall, MaxApprove,
+          MaxSlash,     \* how often validator 0 may be slashed (each time by one half)
+          SlashSwitchLen \* slashed states are combined with switch settings of at most this many entries
 
 Acc      == {"user", "A", "B", "victim"}
 Chains   == {"user->P", "user->A->P", "user->A->B->P"}
 Kinds    == {"CALL", "STATICCALL", "DELEGATECALL", "CALLCODE"}
 Namings  == {"caller", "victim", "other"}
+Fates    == {"commit", "revert", "caught", "outer"}
 StakingM == {"delegateV2", "undelegateV2", "redelegateV2", "withdraw", "approveShares", "transferShares", "transferFromShares"}
 CrossM   == {"crossChain", "bridgeCall", "cancelSendToExternal", "increaseBridgeFee", "executeClaim"}
 ReadM    == {"delegation"}
@@ -52,21 +70,23 @@ VARIABLES fx,      \* [Acc -> Nat]  FX balance, whole units
           calls,   \* [Acc -> Nat]  token amount in outgoing bridge calls of the account
           parked,  \* [Acc -> Nat]  parked deposits whose receiver is the account
           switch,  \* governance switch: sequence of disabled entries
+          slashed, \* Nat: number of times validator 0 was slashed by one half (one token = 2^slashed shares)
           ncall, napp,
           op
 
 pvars == <<fx, frac, tok, coin, sh, sh1, rew, allow, ubd, red, pool, calls, parked>>
-svars == <<fx, frac, tok, coin, sh, sh1, rew, allow, ubd, red, pool, calls, parked, switch, ncall, napp>>
+svars == <<fx, frac, tok, coin, sh, sh1, rew, allow, ubd, red, pool, calls, parked, switch, slashed, ncall, napp>>
 vars  == <<svars, op>>
 
 Port == [fx |-> fx, frac |-> frac, tok |-> tok, coin |-> coin, sh |-> sh, sh1 |-> sh1, rew |-> rew, allow |-> allow,
          ubd |-> ubd, red |-> red, pool |-> pool, calls |-> calls, parked |-> parked]
 Abs == [fx |-> fx, frac |-> frac, tok |-> tok, coin |-> coin, sh |-> sh, sh1 |-> sh1, rew |-> rew, allow |-> allow,
-        ubd |-> ubd, red |-> red, pool |-> pool, calls |-> calls, parked |-> parked, switch |-> switch, ncall |-> ncall]
+        ubd |-> ubd, red |-> red, pool |-> pool, calls |-> calls, parked |-> parked, switch |-> switch, slashed |-> slashed,
+        ncall |-> ncall]
 
 None == "none"
-Op(name, m, chain, kind, naming, o, s, n, x, res) ==
-  [name |-> name, m |-> m, chain |-> chain, kind |-> kind, naming |-> naming, o |-> o, s |-> s, n |-> n, x |-> x, res |-> res]
+Op(name, m, chain, kind, naming, fate, o, s, n, x, res) ==
+  [name |-> name, m |-> m, chain |-> chain, kind |-> kind, naming |-> naming, fate |-> fate, o |-> o, s |-> s, n |-> n, x |-> x, res |-> res]
 
 Init ==
   /\ fx = [a \in Acc |-> 1000] /\ frac = [a \in Acc |-> FALSE]
@@ -76,8 +96,8 @@ Init ==
   /\ ubd = [a \in Acc |-> 0] /\ red = [a \in Acc |-> 0]
   /\ pool = [a \in Acc |-> [n |-> 1, amt |-> 4, fee |-> 1]]
   /\ calls = [a \in Acc |-> 0] /\ parked = [a \in Acc |-> 1]
-  /\ switch = <<>> /\ ncall = 0 /\ napp = 0
-  /\ op = Op("Init", None, None, None, None, None, None, 0, <<>>, "ok")
+  /\ switch = <<>> /\ slashed = 0 /\ ncall = 0 /\ napp = 0
+  /\ op = Op("Init", None, None, None, None, None, None, None, 0, <<>>, "ok")
 
 Rej(o) == op' = [o EXCEPT !.res = "rej"] /\ UNCHANGED svars
 
@@ -91,14 +111,18 @@ Install(r) ==
   /\ fx' = r.fx /\ frac' = r.frac /\ tok' = r.tok /\ coin' = r.coin /\ sh' = r.sh /\ sh1' = r.sh1 /\ rew' = r.rew
   /\ allow' = r.allow /\ ubd' = r.ubd /\ red' = r.red /\ pool' = r.pool /\ calls' = r.calls /\ parked' = r.parked
 
+\* shares of validator 0 that S tokens buy / that have to be given up to take S tokens out
+K  == 2 ^ slashed
+SK == S * K
+
 \* rewards of a on validator 0 are withdrawn to a
 Paid(r, a) == [r EXCEPT !.rew[a] = FALSE, !.frac[a] = @ \/ r.rew[a]]
 
 \* what the method needs from the state (beyond a writable context and an enabled switch)
 Guard(m, c, nm) ==
   CASE m = "delegateV2"           -> fx[c] >= S
-    [] m = "undelegateV2"         -> sh[c] >= S
-    [] m = "redelegateV2"         -> sh[c] >= S
+    [] m = "undelegateV2"         -> sh[c] >= SK
+    [] m = "redelegateV2"         -> sh[c] >= SK
     [] m = "withdraw"             -> sh[c] > 0
     [] m = "approveShares"        -> TRUE
     [] m = "transferShares"       -> sh[c] >= S
@@ -112,9 +136,9 @@ Guard(m, c, nm) ==
 
 Effect(m, c, nm) ==
   LET r == Port IN
-  CASE m = "delegateV2"           -> Paid([r EXCEPT !.fx[c] = @ - S, !.sh[c] = @ + S], c)
-    [] m = "undelegateV2"         -> Paid([r EXCEPT !.sh[c] = @ - S, !.ubd[c] = @ + S], c)
-    [] m = "redelegateV2"         -> Paid([r EXCEPT !.sh[c] = @ - S, !.sh1[c] = @ + S, !.red[c] = @ + S], c)
+  CASE m = "delegateV2"           -> Paid([r EXCEPT !.fx[c] = @ - S, !.sh[c] = @ + SK], c)
+    [] m = "undelegateV2"         -> Paid([r EXCEPT !.sh[c] = @ - SK, !.ubd[c] = @ + S], c)
+    [] m = "redelegateV2"         -> Paid([r EXCEPT !.sh[c] = @ - SK, !.sh1[c] = @ + S, !.red[c] = @ + S], c)
     [] m = "withdraw"             -> Paid(r, c)
     [] m = "approveShares"        -> [r EXCEPT !.allow[c][nm] = S]
     [] m = "transferShares"       -> Paid(Paid([r EXCEPT !.sh[c] = @ - S, !.sh[nm] = @ + S], c), nm)
@@ -129,40 +153,52 @@ Effect(m, c, nm) ==
 \* a transfer of shares to oneself is C11's subject (Shares.tla), not exercised here
 SelfTransfer(m, c, nm) == m \in {"transferShares", "transferFromShares"} /\ nm = c
 
-Call(m, chain, kind, naming) ==
-  LET this == Op("Call", m, chain, kind, naming, None, None, 0, <<>>, "ok")
+\* the fates a chain admits: a transaction's own frame cannot "revert after the call"; catching needs two contracts
+FateOK(chain, fate) == CASE fate = "commit" -> TRUE [] fate = "revert" -> chain # "user->P" [] OTHER -> chain = "user->A->B->P"
+
+Call(m, chain, kind, naming, fate) ==
+  LET this == Op("Call", m, chain, kind, naming, fate, None, None, 0, <<>>, "ok")
       c    == CallerOf(chain)
       nm   == Named(naming, c)
-      okk  == /\ ~DisabledIn(switch, m)
+      okk  == /\ fate = "commit"                    \* what a frame that does not survive did is undone completely
+              /\ ~DisabledIn(switch, m)
               /\ (m \notin ReadM => kind = "CALL")
               /\ Guard(m, c, nm)
   IN IF ~okk THEN Rej(this) ELSE
      /\ Install(Effect(m, c, nm))
-     /\ ncall' = ncall + 1 /\ op' = this /\ UNCHANGED <<switch, napp>>
+     /\ ncall' = ncall + 1 /\ op' = this /\ UNCHANGED <<switch, slashed, napp>>
 
 \* the owner's own approveShares(validator 0, spender, n) - an EOA transaction, or the contract calling the precompile
 Approve(o, s, n) ==
-  LET this == Op("Approve", None, None, None, None, o, s, n, <<>>, "ok")
+  LET this == Op("Approve", None, None, None, None, None, o, s, n, <<>>, "ok")
   IN IF DisabledIn(switch, "approveShares") THEN Rej(this) ELSE
      /\ allow' = [allow EXCEPT ![o][s] = n]
      /\ napp' = napp + 1 /\ op' = this
-     /\ UNCHANGED <<fx, frac, tok, coin, sh, sh1, rew, ubd, red, pool, calls, parked, switch, ncall>>
+     /\ UNCHANGED <<fx, frac, tok, coin, sh, sh1, rew, ubd, red, pool, calls, parked, switch, slashed, ncall>>
 
 \* MsgUpdateSwitchParams by the governance authority
 SetSwitch(x) ==
-  /\ switch' = x /\ op' = Op("SetSwitch", None, None, None, None, None, None, 0, x, "ok")
-  /\ UNCHANGED <<pvars, ncall, napp>>
+  /\ switch' = x /\ op' = Op("SetSwitch", None, None, None, None, None, None, None, 0, x, "ok")
+  /\ UNCHANGED <<pvars, slashed, ncall, napp>>
 
-Probe == op' = Op("Probe", None, None, None, None, None, None, 0, <<>>, "ok") /\ UNCHANGED svars
+\* a block begins with evidence against validator 0: half of its tokens are burnt, the delegators keep their shares
+Slash ==
+  /\ slashed' = slashed + 1 /\ op' = Op("Slash", None, None, None, None, None, None, None, 0, <<>>, "ok")
+  /\ UNCHANGED <<pvars, switch, ncall, napp>>
+
+Probe == op' = Op("Probe", None, None, None, None, None, None, None, 0, <<>>, "ok") /\ UNCHANGED svars
 
 Next ==
   /\ ncall < MaxCall     \* horizon: nothing is claimed after MaxCall accepted calls (no Probe there: frontier)
-  /\ \/ \E m \in Method, chain \in Chains, kind \in Kinds, naming \in Namings :
+  /\ \/ \E m \in Method, chain \in Chains, kind \in Kinds, naming \in Namings, fate \in Fates :
           /\ (chain = "user->P" => kind = "CALL")       \* a transaction's top-level call is always a CALL
+          /\ FateOK(chain, fate)
+          /\ (fate # "commit" => kind = "CALL")         \* (the other instructions fail at the precompile: nothing to revert)
           /\ ~SelfTransfer(m, CallerOf(chain), Named(naming, CallerOf(chain)))
-          /\ Call(m, chain, kind, naming)
+          /\ Call(m, chain, kind, naming, fate)
      \/ \E o \in Acc, s \in {"user", "A", "B"}, n \in ApproveAmt : Approve(o, s, n)
      \/ \E x \in SwitchVal : SetSwitch(x)
+     \/ Slash
      \/ Probe
 
 Spec == Init /\ [][Next]_vars
@@ -207,6 +243,12 @@ A_C10_DisabledNeverRuns ==
   /\ (op'.name = "Approve" /\ DisabledIn(switch, "approveShares")) => (op'.res = "rej" /\ Port' = Port)
 C10_DisabledNeverRuns == [][A_C10_DisabledNeverRuns]_vars
 
+\* a precompile call whose frame (or an enclosing frame) is reverted afterwards has acted for nobody: nothing of it is
+\* left, whoever catches the failure - in particular no allowance is granted by an approveShares that did not survive
+A_C10_RevertedIsNoop ==
+  (op'.name = "Call" /\ op'.fate # "commit") => (op'.res = "rej" /\ Port' = Port)
+C10_RevertedIsNoop == [][A_C10_RevertedIsNoop]_vars
+
 \* a refused call changes nothing at all; a read-only method never changes anything
 A_C10_RefusedIsNoop ==
   /\ op'.res = "rej" => Port' = Port
@@ -217,7 +259,8 @@ C10_RefusedIsNoop == [][A_C10_RefusedIsNoop]_vars
 View == svars
 \* allowance grants are combined with the single-entry switch settings only (multi-entry lists are explored
 \* from the grant-free state)
-Bounded == napp' <= MaxApprove /\ (napp' >= 1 => Len(switch') <= 1)
+Bounded == /\ napp' <= MaxApprove /\ (napp' >= 1 => Len(switch') <= 1)
+           /\ slashed' <= MaxSlash /\ (slashed' >= 1 => Len(switch') <= SlashSwitchLen)
 EdgeDump == /\ IF op.name = "Init" \/ op'.res = "ok"
                THEN PrintT(<<"EDGE", ToJson([from |-> Abs, op |-> op', to |-> Abs'])>>)
                ELSE TRUE
